@@ -424,10 +424,10 @@ func (c *channelCacheImpl) addChannelCache(ctx context.Context, channel channels
 
 	// Everything after the current high sequence will be added to the cache via the feed
 	validFrom := c.GetHighCacheSequence() + 1
+	verifPoint("channel-cache-between-validfrom-and-insert")
 
 	singleChannelCache :=
 		newChannelCacheWithOptions(ctx, queryHandler, channel, validFrom, c.options, c.cacheStats)
-	verifPoint("channel-cache-between-validfrom-and-insert")
 	cacheValue, created, cacheSize := c.channelCaches.GetOrInsert(channel, singleChannelCache)
 	c.validFromLock.Unlock()
 
